@@ -22,6 +22,8 @@ pub struct Snap {
     pub holders: Vec<(usize, usize)>,
     pub links_blocked: Vec<usize>,
     pub n_auths: usize,
+    /// per train index (0 = the dummy): has completed its dispatch path
+    pub finished: Vec<bool>,
 }
 
 #[derive(Clone, Debug)]
@@ -51,6 +53,9 @@ pub struct DispatchRun {
     pub plan: Result<Vec<Vec<LinkIdxTime>>, String>,
     pub panic: Option<PanicRec>,
     pub snaps: Vec<Snap>,
+    /// state at the moment the free-path update produced the errors `run_dispatch` returned:
+    /// per train index the links it declares as blocked by itself, and `links_blocked`
+    pub failed: Option<(Vec<Vec<usize>>, Vec<usize>)>,
     pub final_paths: Vec<Vec<Node>>,
     pub final_auths: Vec<Auth>,
 }
@@ -116,6 +121,7 @@ pub fn run_scenario(case: &DispatchCase, require_faithful: bool) -> Result<Dispa
     let slts: Vec<_> = members.iter().map(|i| built.slts[*i].clone()).collect();
     let snaps: Rc<RefCell<Vec<Snap>>> = Rc::new(RefCell::new(vec![]));
     let fin: Rc<RefCell<(Value, Vec<Auth>)>> = Rc::new(RefCell::new((Value::Null, vec![])));
+    let failed: Rc<RefCell<Option<(Vec<Vec<usize>>, Vec<usize>)>>> = Rc::new(RefCell::new(None));
     {
         let snaps = snaps.clone();
         let fin = fin.clone();
@@ -126,7 +132,15 @@ pub fn run_scenario(case: &DispatchCase, require_faithful: bool) -> Result<Dispa
         // run_dispatch, which is reported as a violation of "dispatch terminates" — a
         // deterministic prediction, not a time limit
         let mut rep: (u64, usize, Option<String>, usize) = (0, 0, None, 0); // cheap hash, cheap repeats, full image, full repeats
+        let failed = failed.clone();
         set_dispatch_observer(Box::new(move |s| {
+            if s.phase == DispatchPhase::Failed {
+                *failed.borrow_mut() = Some((
+                    s.train_disps.iter().map(|t| t.link_idxs_blocking().iter().map(|l| l.idx()).collect()).collect(),
+                    s.links_blocked.iter().map(|t| t.map(|x| x.get() as usize).unwrap_or(0)).collect(),
+                ));
+                return;
+            }
             if s.phase != DispatchPhase::Final {
                 let mut h = 0xcbf29ce484222325u64 ^ s.train_idx as u64;
                 for auths in s.link_disp_auths.iter() {
@@ -191,6 +205,7 @@ pub fn run_scenario(case: &DispatchCase, require_faithful: bool) -> Result<Dispa
                 holders,
                 links_blocked: s.links_blocked.iter().map(|t| t.map(|x| x.get() as usize).unwrap_or(0)).collect(),
                 n_auths,
+                finished: s.train_disps.iter().enumerate().map(|(i, t)| i > 0 && t.is_finished()).collect(),
             });
         }));
     }
@@ -204,7 +219,8 @@ pub fn run_scenario(case: &DispatchCase, require_faithful: bool) -> Result<Dispa
     };
     let snaps = snaps.borrow().clone();
     let (fv, final_auths) = fin.borrow().clone();
-    Ok(DispatchRun { built, members, est, dropped, plan, panic, snaps, final_paths: parse_paths(&fv), final_auths })
+    let failed = failed.borrow().clone();
+    Ok(DispatchRun { built, members, est, dropped, plan, panic, snaps, failed, final_paths: parse_paths(&fv), final_auths })
 }
 
 /// occupancy windows of one train from its final dispatch path: (link, enter, leave)
@@ -229,7 +245,12 @@ fn dir_labels(case: &DispatchCase, run: &DispatchRun, cx: &mut Ctx) {
     }
     match &run.plan {
         Ok(_) => cx.label("plan_ok"),
-        Err(e) => cx.label(&format!("plan_err:{}", msg_class(e.lines().last().unwrap_or(""), 50))),
+        Err(e) => {
+            if std::env::var("VERIF_DUMP").is_ok() {
+                eprintln!("DUMP plan_err {e}");
+            }
+            cx.label(&format!("plan_err:{}", msg_class(e.lines().map(|l| l.trim()).filter(|l| !l.is_empty() && !l.starts_with('[')).last().unwrap_or(""), 50)))
+        }
     }
     cx.count("snapshots", run.snaps.len() as u64);
     cx.count("snapshots_with_a_held_segment", run.snaps.iter().filter(|s| !s.holders.is_empty()).count() as u64);
@@ -444,6 +465,37 @@ fn check_c05_inner(case: &DispatchCase, cx: &mut Ctx) {
                 cx.fail("C05|err|error-does-not-name-trains", format!("error text: {e:?}"));
             }
             cx.label("explicit_error");
+            // "an error naming the trains that could not be routed": the dispatcher's own
+            // consistency error "Occupancy conflict at link L between train A and train B" says
+            // that B keeps L blocked.  At the moment the error is produced B must then declare L
+            // among the links it blocks (the flip and the lockouts of what it occupies); a
+            // conflict with a train that blocks nothing there is not a train that could not be
+            // routed but a stale entry of the bookkeeping
+            let words: Vec<&str> = e.split(|c: char| !c.is_alphanumeric()).filter(|w| !w.is_empty()).collect();
+            if let Some((blocking, _)) = &run.failed {
+                for w in words.windows(11) {
+                    if w[0] == "Occupancy" && w[1] == "conflict" && w[3] == "link" && w[5] == "between" && w[6] == "train" && w[8] == "and" && w[9] == "train" {
+                        if let (Ok(l), Ok(b)) = (w[4].parse::<usize>(), w[10].parse::<usize>()) {
+                            cx.label("occupancy_conflict_reported");
+                            if !blocking.get(b).map(|v| v.contains(&l)).unwrap_or(false) {
+                                cx.fail("C05|err|conflict-reported-with-a-train-that-does-not-block-that-segment", format!("link {l}, train {b} blocks {:?}; error text: {}", blocking.get(b), e.lines().map(|x| x.trim()).filter(|x| !x.is_empty()).collect::<Vec<_>>().join(" | ").chars().take(300).collect::<String>()));
+                            }
+                        }
+                    }
+                }
+            }
+            if let Some(last) = run.snaps.last() {
+                for w3 in words.windows(2) {
+                    if w3[0] == "train" {
+                        if let Ok(t) = w3[1].parse::<usize>() {
+                            if last.finished.get(t).copied().unwrap_or(false) {
+                                cx.fail("C05|err|error-names-a-train-that-had-completed-its-route", format!("train {t} had finished; error text: {}", e.lines().map(|l| l.trim()).filter(|l| !l.is_empty()).collect::<Vec<_>>().join(" | ").chars().take(300).collect::<String>()));
+                                break;
+                            }
+                        }
+                    }
+                }
+            }
         }
         Ok(plan) => {
             if plan.len() != run.members.len() {
